@@ -5,6 +5,7 @@ import (
 	"flag"
 	"fmt"
 	"os"
+	"os/exec"
 	"path/filepath"
 	"sort"
 	"strconv"
@@ -40,13 +41,13 @@ type Baseline struct {
 }
 
 type unitResult struct {
-	key   string
-	kind  string
-	obls  []*Obligation
-	errs  []string
-	notes []string
+	key     string
+	kind    string
+	obls    []*Obligation
+	errs    []string
+	notes   []string
 	assumed []string
-	paths int
+	paths   int
 }
 
 type CheckResult struct {
@@ -60,6 +61,7 @@ type CheckResult struct {
 	SolverCnt map[string]int
 	Wall      float64
 	LoadS     float64
+	Corpus    map[string]interface{}
 }
 
 // runProperty: generate and discharge every obligation tagged with the property.
@@ -243,6 +245,9 @@ func cmdCheck(args []string) int {
 	os.RemoveAll(replayDir)
 	res := runProperty(p, s, *prop, cfg)
 	res.LoadS = loadS
+	if *tier == "thorough" && *outDir == "" && os.Getenv("SXV_NO_CORPUS") == "" {
+		res.Corpus = runCorpus(*repo, *prop)
+	}
 	code := report(res, p, *repo, *tier, seed, *evidence, replayDir, *verbose, t0)
 	return code
 }
@@ -415,20 +420,23 @@ func report(res *CheckResult, p *Program, repo, tier string, seed int, evidenceP
 		sm[k] = map[string]interface{}{"total_ms": v, "discharged_first": res.SolverCnt[k]}
 	}
 	cov := map[string]interface{}{
-		"obligations":              total,
-		"discharged":               discharged,
-		"checker_cmd":              fmt.Sprintf("bin/sxv check -p %s -tier %s  (go/ssa VC generator; z3-new 5.1.0, z3 4.8.12, cvc5 1.0.3)", prop, tier),
-		"trusted_base":             []string{"go/types + go/ssa (x/tools v0.29.0) as front end", "sxv VC generator (this repository, /verif/tool)", "z3 5.1.0 / z3 4.8.12 / cvc5 1.0.3", "assumed contracts in /verif/contracts/ext/*.sxc (listed under assumptions when used)", "Go memory model for channel operations"},
-		"samples":                  samples,
-		"functions_under_contract": funcs,
-		"functions_verified":       nfunc,
-		"obligation_kinds":         kinds,
-		"solvers":                  sm,
-		"failed":                   failedNames,
-		"known_findings_printed":   knownPrinted,
-		"undecided":                undecided,
-		"load_s":                   res.LoadS,
+		"obligations":               total,
+		"discharged":                discharged,
+		"checker_cmd":               fmt.Sprintf("bin/sxv check -p %s -tier %s  (go/ssa VC generator; z3-new 5.1.0, z3 4.8.12, cvc5 1.0.3)", prop, tier),
+		"trusted_base":              []string{"go/types + go/ssa (x/tools v0.29.0) as front end", "sxv VC generator (this repository, /verif/tool)", "z3 5.1.0 / z3 4.8.12 / cvc5 1.0.3", "assumed contracts in /verif/contracts/ext/*.sxc (listed under assumptions when used)", "Go memory model for channel operations"},
+		"samples":                   samples,
+		"functions_under_contract":  funcs,
+		"functions_verified":        nfunc,
+		"obligation_kinds":          kinds,
+		"solvers":                   sm,
+		"failed":                    failedNames,
+		"known_findings_printed":    knownPrinted,
+		"undecided":                 undecided,
+		"load_s":                    res.LoadS,
 		"committed_min_obligations": bl.MinObligations,
+	}
+	if res.Corpus != nil {
+		cov["must_fail_corpus"] = res.Corpus
 	}
 	ev := evidenceFile{PropertyID: prop, Tier: tier, Seed: seed, Level: "proof", Coverage: cov, Assumptions: assumptions,
 		WallS: time.Since(t0).Seconds(), Violations: violations}
@@ -488,4 +496,78 @@ func truncate(s string, n int) string {
 		return s[:n] + "…"
 	}
 	return s
+}
+
+// runCorpus (thorough tier): engine health check. Every committed property-breaking change for this property
+// (seeded/<id>-m*/patch.diff, selftest/<id>/*.diff) is applied to a scratch copy of the tree under check and the
+// quick check is run there: it must report a violation. Harmless refactors (selftest/harmless) must not. The result
+// is evidence only: it never changes the exit code of the check (a patch that does not apply to an edited tree is
+// skipped).
+func runCorpus(repo, prop string) map[string]interface{} {
+	self, err := os.Executable()
+	if err != nil {
+		return map[string]interface{}{"error": err.Error()}
+	}
+	var patches []string
+	m1, _ := filepath.Glob(filepath.Join(verifDir, "seeded", prop+"-m*", "patch.diff"))
+	m2, _ := filepath.Glob(filepath.Join(verifDir, "selftest", prop, "*.diff"))
+	patches = append(append(patches, m1...), m2...)
+	sort.Strings(patches)
+	type result struct{ name, status string }
+	results := make([]result, len(patches))
+	sem := make(chan struct{}, 6)
+	done := make(chan int, len(patches))
+	for i, pf := range patches {
+		go func(i int, pf string) {
+			sem <- struct{}{}
+			defer func() { <-sem; done <- i }()
+			name, _ := filepath.Rel(verifDir, pf)
+			results[i] = result{name, corpusOne(self, repo, pf, prop)}
+		}(i, pf)
+	}
+	for range patches {
+		<-done
+	}
+	caught, run := 0, 0
+	var missed, skipped []string
+	for _, r := range results {
+		switch r.status {
+		case "caught":
+			caught++
+			run++
+		case "missed":
+			missed = append(missed, r.name)
+			run++
+		default:
+			skipped = append(skipped, r.name+": "+r.status)
+		}
+	}
+	for _, mname := range missed {
+		fmt.Println("SELFTEST-MISS", prop, mname)
+	}
+	return map[string]interface{}{"run": run, "caught": caught, "missed": missed, "skipped": skipped,
+		"note": "engine health check on scratch copies of the tree under check; not part of the decision"}
+}
+
+func corpusOne(self, repo, patch, prop string) string {
+	dir, err := os.MkdirTemp("", "sxv-corpus-")
+	if err != nil {
+		return "tmpdir: " + err.Error()
+	}
+	defer os.RemoveAll(dir)
+	if out, err := exec.Command("rsync", "-a", "--exclude", ".git", repo+"/", dir+"/").CombinedOutput(); err != nil {
+		return "copy failed: " + firstLines(string(out), 1)
+	}
+	ap := exec.Command("patch", "-p1", "-s", "-i", patch)
+	ap.Dir = dir
+	if out, err := ap.CombinedOutput(); err != nil {
+		return "patch does not apply: " + firstLines(string(out), 1)
+	}
+	c := exec.Command(self, "check", "-repo", dir, "-p", prop, "-tier", "quick", "-out", filepath.Join(dir, ".sxvout"))
+	c.Env = append(os.Environ(), "SXV_NO_CORPUS=1")
+	out, _ := c.CombinedOutput()
+	if strings.Contains(string(out), "VIOLATION property="+prop) {
+		return "caught"
+	}
+	return "missed"
 }
